@@ -240,11 +240,14 @@ example : RingEquiv [1, 10, 5, 4, 3, 2] [5, 10, 1, 2, 3, 4] := by
   have h4 : RingEquiv [4, 5, 10, 1, 2, 3] [5, 10, 1, 2, 3, 4] := .rot 4 _
   exact .trans h1 (.trans h2 (.trans h3 h4))
 
-/-- **Renumbering the atoms commutes with the perception**: if `m'` is `m` with every atom `i` renamed `π i` (bonds and
-rings renamed in the same order), the aromatised `m'` is the aromatised `m` renamed the same way — every graph, every
-bijection `π`. -/
-theorem C03_aromatize_relabel {π : Nat → Nat} {m m' : Mol} (iso : MolIso π m m') :
-    MolIso π (aromatizeBenson m) (aromatizeBenson m') := iso.aromatizeBenson
+/-- **Renumbering the atoms commutes with the perception**: if `m'` is `m` with every atom `i` renamed `π i` (bonds
+renamed and listed in any order, rings renamed in the same order), the aromatised `m'` is the aromatised `m` renamed the
+same way — every well-formed graph, every bijection `π`. -/
+theorem C03_aromatize_relabel {π : Nat → Nat} {m m' : Mol} (iso : MolIso π m m') (hm : m.wf = true) :
+    MolIso π (aromatizeBenson m) (aromatizeBenson m') := iso.aromatizeBenson hm (iso.wf hm)
+
+/-- a renumbering of a well-formed graph is a well-formed graph -/
+theorem C03_relabel_wf {π : Nat → Nat} {m m' : Mol} (iso : MolIso π m m') (hm : m.wf = true) : m'.wf = true := iso.wf hm
 
 /-- **Embeddings are transported by a renumbering**: an assignment `f` into `m` embeds a query exactly when `π ∘ f`
 embeds it in the renumbered graph — every atom, bond, constraint, stereo and molecule-level predicate of
@@ -259,17 +262,19 @@ namespace PGA.C03
 open PGA PGA.Spec PGA.Scheme PGA.Decompose PGA.Match
 
 /-- **C03 end to end.** For every scheme and every pair of graphs of which one is the other with its atoms renumbered
-(`MolIso π m m'`: atoms, bonds and rings renamed, in the same order): the decomposition of the renumbered graph fails
-exactly when that of the original fails, and otherwise gives every name the same count.  Hypotheses: both graphs
-well-formed, queries well-formed (reader), no `*` suffix, every pattern's candidate count below the cap on both
-aromatised graphs, chain-free remap table.  (Independence from the ORDER of the ring list is `C03_aromatize_order_*`.) -/
+(`MolIso π m m'`: atoms renamed; bonds renamed, listed in any order; rings renamed, in the same order): the
+decomposition of the renumbered graph fails exactly when that of the original fails, and otherwise gives every name the
+same count.  Hypotheses: the graph well-formed, queries well-formed (reader), no `*` suffix, every pattern's candidate
+count below the cap on both aromatised graphs, chain-free remap table.  (Independence from the ORDER of the ring list is
+`C03_aromatize_order_*`.) -/
 theorem C03_decompose_relabel (S : SchemeDef) {π : Nat → Nat} {m m' : Mol} (iso : MolIso π m m')
-    (hm : m.wf = true) (hm' : m'.wf = true) (hq : S.wf = true) (hs : S.noStar = true)
+    (hm : m.wf = true) (hq : S.wf = true) (hs : S.noStar = true)
     (hcap : maxRaw S (aromatizeBenson m) < maxMatches) (hcap' : maxRaw S (aromatizeBenson m') < maxMatches)
     (hcf : ChainFree S.remaps) :
     (decompose S m' = .error .patternMatch ↔ decompose S m = .error .patternMatch) ∧
     ∀ res res', decompose S m = .ok res → decompose S m' = .ok res' → ∀ t, res'.get t = res.get t := by
-  have R := toInput_relabel S iso.aromatizeBenson (wf_aromatizeBenson m hm) (wf_aromatizeBenson m' hm') hq hs hcap hcap'
+  have hm' := iso.wf hm
+  have R := toInput_relabel S (iso.aromatizeBenson hm hm') (wf_aromatizeBenson m hm) (wf_aromatizeBenson m' hm') hq hs hcap hcap'
   exact PGA.Scheme.C03_descriptors_relabel R hcf
 
 /-! ### non-vacuity: a C–H fragment and the same fragment with its two atoms swapped -/
@@ -289,7 +294,8 @@ def hcMol : Mol :=
   { atoms := [⟨1, 0, 0, false, some 1⟩, ⟨6, 0, 3, false, some 1⟩], bonds := [⟨1, 0, .single, false, .none, []⟩], rings := [] }
 
 example : MolIso swap01 chMol hcMol := by
-  refine ⟨fun x y h => by rw [← swap01_invol x, ← swap01_invol y, h], fun y => ⟨swap01 y, swap01_invol y⟩, ?_, rfl, ?_, rfl, rfl⟩
+  refine ⟨fun x y h => by rw [← swap01_invol x, ← swap01_invol y, h], fun y => ⟨swap01 y, swap01_invol y⟩, ?_, rfl, ?_,
+    List.Perm.refl _, rfl⟩
   · intro i
     unfold swap01
     show (if i = 0 then 1 else if i = 1 then 0 else i) < 2 ↔ i < 2
